@@ -210,9 +210,28 @@ def find_container(tree, call):
     return None
 
 
+LATER_ERRORS = ["x = (1,\n 2\ny = 3\n", "q = [a b (c]\n", "x = (1 2)\n", "if a\n  pass\n", "f(a=1, b)\n", "z = 1 +\n", "k = 'abc\n", "  q = 1\n", "d = {1: 2,\n 3}\nf(a for a in b, c)\n", "for x in y z: pass\n", "print x\n"]
+
+
+def check_then_error(rec, case):
+    """code after a macro is 'unaffected by the macro' also when that code is wrong: the report is the one the same
+    code gets when the macro is replaced by an ordinary call / with-block occupying the same lines"""
+    macro_src, follow, plain = case["macro_src"], case["follow"], case["plain_src"]
+    a = outcome(macro_src + follow, "exec")
+    b = outcome(plain + follow, "exec")
+    rec.case(case, b.kind == "error", labels=("kind:macro-then-error", f"macro:{case.get('mkind', '?')}", f"reference:{b.kind}"), key=(macro_src, follow))
+    if outcome(macro_src, "exec").kind != "tree":
+        rec.exclude("macro-part-not-accepted-alone")
+        return
+    if a.canon() != b.canon():
+        rec.fail(dict(case, src=macro_src + follow), f"error-after-macro-differs:{b.kind}->{a.kind}", {"with_macro": [str(x)[:160] for x in a.canon()], "with_plain_statements": [str(x)[:160] for x in b.canon()], "src": macro_src + follow})
+
+
 def check(rec, case):
     k = case["kind"]
-    if k == "call":
+    if k == "then-error":
+        check_then_error(rec, case)
+    elif k == "call":
         check_call_macro(rec, case)
     elif k == "proc":
         check_proc_macro(rec, case)
@@ -236,5 +255,31 @@ def search(rec, ctx):
 
     def withm(rnd):
         check(rec, dict(xonsh.with_macro_case(rnd), kind="with"))
+
+    def then_error(rnd):
+        r = rnd.random()
+        if r < 0.4:
+            c = xonsh.call_macro_case(rnd)
+            msrc, mkind = c["ctx"].replace("{M}", c["macro"]), "call"
+            plain = c["ctx"].replace("{M}", "M(" + "\n" * c["macro"].count("\n") + "0)")
+        elif r < 0.65:
+            t = xonsh.proc_macro_case(rnd)["text"]
+            msrc, mkind = "r = " + t + "\n", "proc"
+            plain = "r = M(" + "\n" * t.count("\n") + "0)\n"
+        else:
+            c = xonsh.with_macro_case(rnd)
+            if c["follow"] or c["outer"] or not c["src"].endswith("\n"):
+                return  # keep the macro the last thing before the faulty code, at top level
+            msrc, mkind = c["src"], "with"
+            head = msrc.split("\n", 1)[0]
+            if c["one_line"]:
+                plain = "with M: pass\n" + "\n" * (msrc.count("\n") - 1)
+            else:
+                first = next(ln for ln in c["block"] if ln.strip() and not ln.strip().startswith("#"))
+                ind = first[: len(first) - len(first.lstrip())]
+                plain = "with M:\n" + "".join((ind + "pass\n") if ln.strip() else "\n" for ln in c["block"]) + "\n" * c["blanks"]
+        check(rec, {"kind": "then-error", "macro_src": msrc, "plain_src": plain, "mkind": mkind, "follow": rnd.choice(LATER_ERRORS)})
+
+    drive(st.randoms(use_true_random=False), then_error, ctx.budget(3000, 40000), ctx.hseed("then-error"))
 
     drive(st.randoms(use_true_random=False), withm, ctx.budget(8000, 100000), ctx.hseed("with"))
